@@ -41,21 +41,6 @@ Proof.
 Qed.
 
 (* ---------- memoize: a stored result is returned only for equal arguments ---------- *)
-Definition wrap (a : pyval) : pyval := PTuple [PTuple [a]; PDict []].      (* (args, kwargs) of f(a) *)
-
-Lemma wrap_supported : forall a, supported a = true -> supported (wrap a) = true.
-Proof.
-  intros a H. unfold supported in *. apply andb_true_iff in H. destruct H as [Hw Hn].
-  unfold wrap. simpl. unfold no_forge in *. simpl. rewrite Hw, Hn. reflexivity.
-Qed.
-Lemma wrap_no_pandas : forall a, no_pandas a = true -> no_pandas (wrap a) = true.
-Proof. intros a H. unfold no_pandas in *. simpl. rewrite H. reflexivity. Qed.
-Lemma wrap_same : forall a b, py_same (wrap a) (wrap b) = true -> py_same a b = true.
-Proof.
-  intros a b H. unfold py_same, wrap in *. simpl in H.
-  repeat match goal with H : _ && _ = true |- _ => apply andb_true_iff in H; destruct H end. assumption.
-Qed.
-
 Definition memo_inv (all : list pyval) (i : nat) (store : list (pyval * nat)) : Prop :=
   forall k j, In (k, j) store -> j < i /\ exists a, nth_error all j = Some a /\ memo_key a = Ok k.
 
@@ -91,9 +76,9 @@ Proof.
         destruct (Hinv k' j Hin) as [Hlt (aj & Hj & Hkj)].
         rewrite Nat2Z.id. rewrite Hj, Hnth.
         assert (Hsame : py_same aj a = true).
-        { apply wrap_same. destruct (Hall aj (nth_error_In _ _ Hj)) as [Hs1 Hp1].
+        { destruct (Hall aj (nth_error_In _ _ Hj)) as [Hs1 Hp1].
           destruct (Hall a (nth_error_In _ _ Hnth)) as [Hs2 Hp2].
-          eapply (key_eq_implies_eq true (wrap aj) (wrap a) k' k); eauto using wrap_supported, wrap_no_pandas. }
+          eapply (key_eq_implies_eq true aj a k' k); eauto. }
         rewrite Hsame, orb_true_r, andb_true_r.
         apply andb_true_iff. split; [apply Z.leb_le; lia|apply Nat.leb_le; lia].
       * cbn [memo_ok]. replace (sx_is_err (SN i)) with false by reflexivity. unfold SN. rewrite Nat2Z.id.
